@@ -66,6 +66,7 @@ type sctx struct {
 }
 
 func (g *pg) pick(n int, l string) int { return rapid.IntRange(0, n-1).Draw(g.rt, l) }
+
 // chance is true in 1 of n draws (the largest value, so that shrinking removes the decoration).
 func (g *pg) chance(n int, l string) bool {
 	return n > 0 && rapid.IntRange(0, n-1).Draw(g.rt, l) == n-1
@@ -170,7 +171,7 @@ func (g *pg) exprN(d int) *X {
 	if d <= 0 || g.chance(3, "nleaf") {
 		switch g.pick(8, "nk") {
 		case 1, 2:
-			return g.id("a", "b", "c")
+			return g.id("a", "b", "c", "numD")
 		case 3:
 			return &X{K: "idx", A: []*X{g.id("l"), g.exprN(0)}}
 		case 4:
@@ -634,7 +635,7 @@ func (g *pg) recStmt(x *X) string {
 
 func (g *pg) stmt(c sctx) string {
 	g.budget--
-	k := g.pick(30, "stmt")
+	k := g.pick(32, "stmt")
 	if c.depth >= 3 && k >= 10 && k <= 19 {
 		k = k % 5
 	}
@@ -754,32 +755,36 @@ func (g *pg) stmt(c sctx) string {
 			return g.kw("return") + " " + g.srcSameLine(g.exprAny(2))
 		}
 		return g.recStmt(g.exprB(3))
-	case 21:
+	case 21, 22:
 		if c.inFunc {
+			if g.cmRate != 0 && g.chance(3, "retcm") {
+				// a comment on the operator of a return value: wherever the printer moves it, the value must stay on the line of the return
+				return g.kw("return") + " " + g.srcSameLine(g.exprN(1)) + " /*" + g.oneOf("rcmt", " two\n   lines ", "c", "\n", " a\n\n b\n") + "*/ " + g.oneOf("retop", "+", "-", "*", "==") + " " + g.srcSameLine(g.exprN(1))
+			}
 			return g.kw("return") + " " + g.srcSameLine(g.exprAny(3))
 		}
 		return g.recStmt(g.exprN(4))
-	case 22: // raise
+	case 23: // raise
 		return "raise(" + g.oneOf("rs", "\"A\"", "\"B\", \"detail\"", "\"A\", \"d\", [1, 2]", "") + ")"
-	case 23: // import
+	case 24: // import
 		if c.top && g.imports != nil {
 			return g.kw("import") + " " + g.oneOf("imp", "\"lib\"", "'lib'", "\"dir/lib2\"") + " " + g.kw("as") + " " + g.oneOf("impn", "lib", "lib2")
 		}
 		return g.recStmt(&X{K: "dot", S: "x", A: []*X{{K: "id", S: "lib"}}})
-	case 24: // sink
+	case 25: // sink
 		if c.top {
 			return g.sink(c)
 		}
 		return g.recStmt(g.exprS(2))
-	case 25: // bare expression statements
+	case 26: // bare expression statements
 		return g.src(g.exprAny(3))
-	case 26: // object style map with functions
+	case 27: // object style map with functions
 		g.nfunc++
 		return fmt.Sprintf("ob%d := {", g.nfunc) + g.tight("ob") + "\"v\" : " + g.src(g.exprN(1)) + g.oneOf("obsep", ", ", ",\n", "\n") +
 			g.leadCmMaybe() + "\"f\" : " + g.funcLiteral(c) + g.oneOf("obsep2", ", ", ",\n", "\n") + "\"w\" : " + g.src(g.exprAny(1)) + g.tight("ob1") + "}"
-	case 27:
-		return g.recStmt(g.exprS(3))
 	case 28:
+		return g.recStmt(g.exprS(3))
+	case 30:
 		return g.recStmt(g.exprB(4))
 	}
 	return g.recStmt(g.exprN(4))
@@ -846,16 +851,18 @@ func (g *pg) sink(c sctx) string {
 	return sb.String()
 }
 
-const progPrelude = "a := 1\nb := 2\nc := 3\ntt := true\nff := false\ns := \"str\"\nl := [1, 2, 3]\nm := {\"k\" : 1, \"o\" : {\"p\" : [1, {\"q\" : 2}]}}\no := {\"v\" : 5, \"f\" : func (x) {\n    return x + 1\n}}\n"
+const progPrelude = "a := 1\nb := 2\nc := 3\nnumD := 4\ntt := true\nff := false\ns := \"str\"\nl := [1, 2, 3]\nm := {\"k\" : 1, \"o\" : {\"p\" : [1, {\"q\" : 2}]}}\no := {\"v\" : 5, \"f\" : func (x) {\n    return x + 1\n}}\n"
 
 var libs = map[string]string{
 	"lib":      "x := 1\nfunc f(a) {\n    return a + 1\n}\n",
 	"dir/lib2": "x := \"two\"\n",
 }
 
-func genProg(rt *rapid.T) Case {
+// genProg draws a program. While the raw string finding is open, raw strings are only drawn
+// where runCase can leave exactly the raw flag out of the judgement (kind prog, not the file tool).
+func genProg(rt *rapid.T, rawOK bool) Case {
 	g := &pg{rt: rt, budget: 6 + rapid.IntRange(0, 30).Draw(rt, "budget"), imports: libs,
-		noRaw: hx.KnownOpen("C08-raw-string-printed-quoted"), noTD: hx.KnownOpen("C08-times-div-brackets")}
+		noRaw: !rawOK && hx.KnownOpen("C08-raw-string-printed-quoted"), noTD: hx.KnownOpen("C08-times-div-brackets")}
 	switch g.pick(6, "noise") {
 	case 0:
 		g.plain = true
@@ -906,7 +913,7 @@ func genFiles(rt *rapid.T) Case {
 			content = rapid.SampledFrom(directed).Draw(rt, "directed")
 			name += ".ecal"
 		default:
-			content = genProg(rt).Src
+			content = genProg(rt, false).Src
 			name += ".ecal"
 		}
 		c.Files = append(c.Files, FileEnt{Path: dir + name, Content: content})
@@ -919,6 +926,6 @@ func TestProp(t *testing.T) {
 		if rapid.IntRange(0, 11).Draw(rt, "mode") == 0 {
 			return genFiles(rt)
 		}
-		return genProg(rt)
+		return genProg(rt, true)
 	}, runCase)
 }
